@@ -182,7 +182,7 @@ def _run(ctx, ex):
         ("mc/async-d2", cfg("async", 2, show=True), None, 2),
         ("mc/asyncbuf-d3", cfg("asyncbuf", 3), None, 4),
         ("mc/async-d4", cfg("async", 4), None, 4),
-        ("mc/live-async-d2", cfg("async", 2, k=K_LIVE), None, 2),
+        ("mc/live-async-d2", cfg("async", 2, k=K_LIVE), None, 4),
         # the model meets a tighter bound than K; K'=4 <= K implies the K clause and keeps the graph small
         ("mc/live-asyncbuf-d3", cfg("asyncbuf", 3, k=K_LIVE if th else 4), None, 4),
         ("mc/hist-async-d2", cfg("async", 2, hist=8 if th else 6), None, 2),
